@@ -50,6 +50,12 @@ func (vc *VC) Run() {
 			o.Expect = "sat"
 		}
 		vc.tokEntry(st)
+		{
+			// nothing has been waited for when the function starts
+			vc.heapKeySort("#waited", types.Typ[types.Bool])
+			h := vc.heapGet(st, "#waited", types.Typ[types.Bool])
+			vc.addFact("assume", fmt.Sprintf("(forall ((l!w Loc)) (! (not (select %s l!w)) :pattern ((select %s l!w))))", h, h))
+		}
 		if vc.fc.Flags["no-blocking-under-lock"] {
 			// locks held by callers are not tracked: none is held by this function when it starts
 			vc.heapKeySort("#held", types.Typ[types.Bool])
